@@ -98,4 +98,32 @@ def hrun (o : TreeObj) : List HOp → TreeObj × List (Option Bool)
     let rest := hrun r.1 ops
     (rest.1, r.2 :: rest.2)
 
+/-! ### stored encodings with edge identity, maintained by `suppress_unifurcations(update_bipartitions=True)`; the edge maps -/
+
+mutual
+/-- per node (= edge) in post-order: (node id, has exactly one child, leafset mask) -/
+def recsPost : T → List (Nat × Bool × Nat)
+  | .node i x l s cs => recsPostL cs ++ [(i, cs.length == 1, T.mask (.node i x l s cs))]
+def recsPostL : List T → List (Nat × Bool × Nat)
+  | [] => []
+  | c :: cs => recsPost c ++ recsPostL cs
+end
+
+/-- `bipartition_encoding` with the identity of each bipartition's edge: (edge id, leafset, split), in stored (post-)order -/
+def encodeIds (rooted : Option Bool) (sup col : Bool) (t : T) : List (Nat × Nat × Int) :=
+  let t2 := encodeTree rooted sup col t
+  (recsPost t2).map (fun r => (r.1, r.2.2, splitOf (rooted == some true) t2.mask r.2.2))
+
+/-- `Tree.suppress_unifurcations(update_bipartitions=True)` on a tree `t` whose stored encoding is `enc`: every node with exactly
+    one child is removed (its child takes its place), and the stored list loses the bipartitions of exactly the removed edges —
+    selected BY IDENTITY (`id(nd.edge.bipartition)`), not by split mask, which a removed edge shares with the edge below it -/
+def suppressMaint (t : T) (enc : List (Nat × Nat × Int)) : T × List (Nat × Nat × Int) :=
+  let removed := ((recsPost t).filter (fun r => r.2.1)).map (fun r => r.1)
+  (t.sup, enc.filter (fun e => !removed.contains e.1))
+
+/-- `split_bitmask_edge_map` as (re)built on access from the edges in post-order: a later edge with the same split overwrites an
+    earlier one.  The cache is dropped by `encode_bipartitions` and by `suppressMaint`, so what is read is always this. -/
+def edgeMap (enc : List (Nat × Nat × Int)) : List (Int × Nat) :=
+  enc.foldl (fun m e => (m.filter (fun p => p.1 != e.2.2)) ++ [(e.2.2, e.1)]) []
+
 end DendroModel.C01
